@@ -322,6 +322,14 @@ static int recv_events(m_ctx_t *c, int timeout) {
                  */
                 m_mem_unref(evt);
             }
+            if (err == EAGAIN || err == EINTR) {
+                /*
+                 * There was nothing to read from this source (eg: a callback run earlier in this batch
+                 * paused and resumed its module, thus its timer was armed again from scratch):
+                 * this is no reason to drop the remaining events of the batch.
+                 */
+                err = 0;
+            }
         } else {
             /* Forward error to below handling code */
             err = EAGAIN;
